@@ -269,18 +269,18 @@ func (e *Engine) loaded(st *State, v Val) Val {
 	}
 	switch v.Typ.Underlying().(type) {
 	case *types.Pointer, *types.Map, *types.Chan:
-		if len(v.T) < 200 {
+		if len(v.T) < 3000 {
 			st.assume(fmt.Sprintf("(and (<= 0 %s) (<= %s %s))", v.T, v.T, st.alloc))
 		}
 	case *types.Slice:
-		if len(v.T) < 200 {
+		if len(v.T) < 3000 {
 			if c := e.rangeConstraintBV(v.T, v.Typ); c != "" {
 				st.assume(c)
 			}
 			st.assume(fmt.Sprintf("(<= (sl_ref %s) %s)", v.T, st.alloc))
 		}
 	case *types.Basic:
-		if len(v.T) < 200 {
+		if len(v.T) < 3000 {
 			if c := e.rangeConstraint(v.T, v.Typ); c != "" {
 				st.assume(c)
 			}
@@ -390,6 +390,7 @@ func (e *Engine) asTerm(st *State, v Val) string {
 			return t
 		}
 		t := e.S.Fresh("iptr", "Int")
+		e.S.AddAxiom([]string{t}, fmt.Sprintf("(> %s 0)", t)) // the address of a variable is never nil
 		e.interiorPtr[key] = t
 		e.interiorPtrRev[t] = v.P
 		return t
